@@ -22,3 +22,4 @@ fn check(files: &[(&str, &str)]) {
 #[test] fn non_ascii_and_malformed_root() { check(&[("/root.td", "clas é;\ndef 日本 : Übung { int ä = \"𝒳; }\n#ifdef X\n")]); }
 #[test] fn errors_in_an_included_file() { check(&[("/root.td", "include \"inc.td\"\ndef d : Missing;\n"), ("/inc.td", "// é\nclass A { int x = undefined_ñ; }\nclas B;\n")]); }
 #[test] fn unresolved_include_and_bad_template_args() { check(&[("/root.td", "include \"nope.td\"\nclass A<int x>;\ndef d : A<1, 2, \"ü\">;\n")]); }
+#[test] fn semantic_diagnostic_over_non_ascii_text() { check(&[("/root.td", "class Foo<int x>;\ndef d : Foo<\"日本語\">;\ndef e : Foo<7 /* ｎｏｔ　ｓｔｒｉｎｇ */ , 8>;\n")]); }
